@@ -5,10 +5,12 @@ package main
 // Driver for the correspondence check of property C19 (/verif): runs the real main()
 // with the static registry backend and the upstream limits given in VERIF_C19_IN, waits
 // for the proxy listener and reports, for every target of the installed routing table,
-// the limit fields of its private transport (route.addTarget builds one for a host
-// override on an https destination), and what a client of the proxy observes for an
-// upstream that answers after the given delays. One configuration per process: main()
-// parses flags and keeps its state in package variables. Skipped unless VERIF_C19_IN is set.
+// the options the transports depend on and the limit fields of its private transport
+// (route.addTarget builds one for a host override on an https destination; the net.Dialer
+// bound in its Dial / DialContext method value is read back when it can be), and what a
+// client of the proxy observes for an upstream that answers after the given delays: a
+// plain-http route (default transport), a skip-verify route and a host-override route.
+// One configuration per process: main() parses flags and keeps its state in package variables. Skipped unless VERIF_C19_IN is set.
 
 import (
 	"encoding/json"
@@ -21,6 +23,7 @@ import (
 	"sync/atomic"
 	"testing"
 	"time"
+	"unsafe"
 
 	"github.com/fabiolb/fabio/route"
 )
@@ -32,12 +35,54 @@ type verifC19In struct {
 }
 
 type verifC19Target struct {
-	Path         string
+	Path string
+	// the target as route.addTarget saw it
+	Host, Proto, Scheme string
+	TLSSkipVerify       bool
+	// its private transport
 	HasTransport bool
 	RHT, Idle    int64
 	MaxIdle      int
 	ServerName   string
 	Skip         bool
+	// the dialer the transport connects with: HasDialer = Dial or DialContext is set,
+	// DialerReadable = it is a method value bound to a *net.Dialer whose fields are below
+	HasDialer, DialerReadable bool
+	Dial, KeepAlive           int64
+	// other fields of http.Transport that limit connections or bypass the dialer
+	Other []string
+}
+
+// a func value points to a closure object: code pointer, then (for a method value) the bound receiver.
+type verifC19Closure struct {
+	fn   uintptr
+	recv *net.Dialer
+}
+
+// verifC19Bound returns the *net.Dialer bound in the method value stored in the func variable at fp,
+// provided its code pointer is that of the same method value taken from a dialer of our own.
+func verifC19Bound(fp, probe unsafe.Pointer, probeRecv *net.Dialer) (*net.Dialer, bool) {
+	pc := *(**verifC19Closure)(probe)
+	c := *(**verifC19Closure)(fp)
+	if pc == nil || c == nil || pc.recv != probeRecv || c.fn != pc.fn {
+		return nil, false
+	}
+	return c.recv, true
+}
+
+func verifC19Dialer(tr *http.Transport) (d *net.Dialer, has, readable bool) {
+	own := &net.Dialer{Timeout: 123456789}
+	if f := tr.DialContext; f != nil { // net/http prefers DialContext
+		pf := own.DialContext
+		d, readable = verifC19Bound(unsafe.Pointer(&f), unsafe.Pointer(&pf), own)
+		return d, true, readable
+	}
+	if f := tr.Dial; f != nil {
+		pf := own.Dial
+		d, readable = verifC19Bound(unsafe.Pointer(&f), unsafe.Pointer(&pf), own)
+		return d, true, readable
+	}
+	return nil, false, true
 }
 
 type verifC19Req struct {
@@ -46,6 +91,8 @@ type verifC19Req struct {
 	Status  int
 	Elapsed int64 // ms
 	Hits    int64 // requests the upstream received for this client request
+	// the first observation was more than a second beyond the upstream's delay and the request was repeated
+	Remeasured bool
 }
 
 type verifC19Out struct {
@@ -85,10 +132,13 @@ func TestVerifC19(t *testing.T) {
 		io.WriteString(w, "OK")
 	}))
 	defer upstream.Close()
+	plain := httptest.NewServer(upstream.Config.Handler)
+	defer plain.Close()
 
 	proxyAddr, uiAddr := verifC19FreeAddr(), verifC19FreeAddr()
 	routes := fmt.Sprintf("route add override /override %s opts \"host=upstream.example tlsskipverify=true\"\n"+
-		"route add skipverify /skipverify %s opts \"tlsskipverify=true\"\n", upstream.URL, upstream.URL)
+		"route add skipverify /skipverify %s opts \"tlsskipverify=true\"\n"+
+		"route add plain /plain %s\n", upstream.URL, upstream.URL, plain.URL)
 	os.Args = []string{"fabio",
 		"-insecure",
 		"-proxy.addr", proxyAddr,
@@ -121,11 +171,32 @@ func TestVerifC19(t *testing.T) {
 	for _, routes := range route.GetTable() {
 		for _, r := range routes {
 			for _, tg := range r.Targets {
-				vt := verifC19Target{Path: r.Path, HasTransport: tg.Transport != nil}
+				vt := verifC19Target{Path: r.Path, HasTransport: tg.Transport != nil,
+					Host: tg.Opts["host"], Proto: tg.Opts["proto"], Scheme: tg.URL.Scheme, TLSSkipVerify: tg.Opts["tlsskipverify"] == "true"}
 				if tr := tg.Transport; tr != nil {
 					vt.RHT, vt.Idle, vt.MaxIdle = int64(tr.ResponseHeaderTimeout), int64(tr.IdleConnTimeout), tr.MaxIdleConnsPerHost
 					if tr.TLSClientConfig != nil {
 						vt.ServerName, vt.Skip = tr.TLSClientConfig.ServerName, tr.TLSClientConfig.InsecureSkipVerify
+					}
+					var d *net.Dialer
+					d, vt.HasDialer, vt.DialerReadable = verifC19Dialer(tr)
+					if d != nil {
+						vt.Dial, vt.KeepAlive = int64(d.Timeout), int64(d.KeepAlive)
+					}
+					if tr.MaxConnsPerHost != 0 {
+						vt.Other = append(vt.Other, "MaxConnsPerHost")
+					}
+					if tr.MaxIdleConns != 0 {
+						vt.Other = append(vt.Other, "MaxIdleConns")
+					}
+					if tr.DialTLS != nil {
+						vt.Other = append(vt.Other, "DialTLS")
+					}
+					if tr.DialTLSContext != nil {
+						vt.Other = append(vt.Other, "DialTLSContext")
+					}
+					if tr.DisableKeepAlives {
+						vt.Other = append(vt.Other, "DisableKeepAlives")
 					}
 				}
 				out.Targets = append(out.Targets, vt)
@@ -133,21 +204,35 @@ func TestVerifC19(t *testing.T) {
 		}
 	}
 	client := &http.Client{Timeout: 30 * time.Second}
-	for _, path := range []string{"/skipverify", "/override"} {
+	for _, path := range []string{"/plain", "/skipverify", "/override"} {
 		for _, d := range in.Delays {
-			before := atomic.LoadInt64(&hits)
-			start := time.Now()
-			resp, err := client.Get(fmt.Sprintf("http://%s%s?delay=%d", proxyAddr, path, d))
-			rq := verifC19Req{Path: path, DelayMs: d, Status: -1}
-			if err == nil {
-				io.Copy(io.Discard, resp.Body)
-				resp.Body.Close()
-				rq.Status = resp.StatusCode
+			do := func() verifC19Req {
+				before := atomic.LoadInt64(&hits)
+				start := time.Now()
+				resp, err := client.Get(fmt.Sprintf("http://%s%s?delay=%d", proxyAddr, path, d))
+				rq := verifC19Req{Path: path, DelayMs: d, Status: -1}
+				if err == nil {
+					io.Copy(io.Discard, resp.Body)
+					resp.Body.Close()
+					rq.Status = resp.StatusCode
+				}
+				rq.Elapsed = time.Since(start).Milliseconds()
+				// a request the proxy has given up on may still be running in the upstream
+				time.Sleep(30 * time.Millisecond)
+				rq.Hits = atomic.LoadInt64(&hits) - before
+				return rq
 			}
-			rq.Elapsed = time.Since(start).Milliseconds()
-			// a request the proxy has given up on may still be running in the upstream
-			time.Sleep(30 * time.Millisecond)
-			rq.Hits = atomic.LoadInt64(&hits) - before
+			rq := do()
+			// No request, served or given up, takes longer than the upstream's own delay: an observation a
+			// second beyond it is a stall of the machine and is measured once more (a defect that holds
+			// the client shows again); the faster of the two observations is reported.
+			if rq.Elapsed > d+1000 {
+				time.Sleep(time.Duration(d) * time.Millisecond) // let the abandoned upstream handler finish: hits are counted per request
+				if again := do(); again.Elapsed < rq.Elapsed {
+					rq = again
+				}
+				rq.Remeasured = true
+			}
 			out.Reqs = append(out.Reqs, rq)
 		}
 	}
